@@ -16,3 +16,12 @@ Definition c17_l_bt : list N := Eval vm_compute in c17_ln "BT".
 Definition c17_l_almost : list N := Eval vm_compute in fq_bs "endstream ".
 Definition c17_l_44 : list N := Eval vm_compute in c17_ln "44".
 Definition c17_d_2 : list N := Eval vm_compute in fq_bs "2".
+(* lines of the two-object-stream examples of File/C17ExtProofs.v *)
+Definition c17x_l_obj3 : list N := Eval vm_compute in c17_ln "3 0 obj".
+Definition c17x_l_len : list N := Eval vm_compute in c17_ln "  /Length 5".
+Definition c17x_l_ext3 : list N := Eval vm_compute in c17_ln "  /Extends 3 0 R".
+Definition c17x_l_ext1 : list N := Eval vm_compute in c17_ln "  /Extends 1 0 R".
+Definition c17x_l_pair4 : list N := Eval vm_compute in c17_ln "4 0".
+Definition c17x_l_member4 : list N := Eval vm_compute in c17_ln "%% Object stream: object 4, index 0".
+Definition c17x_d_3 : list N := Eval vm_compute in fq_bs "3".
+Definition c17x_l_mykey : list N := Eval vm_compute in c17_ln "  /MyKey 7".
